@@ -1,4 +1,5 @@
 import Tumfl.Props.C04
+import Tumfl.Props.Final
 #print axioms Tumfl.Props.C04_lookup
 #print axioms Tumfl.Props.C04_lookup_none
 #print axioms Tumfl.Props.C04_no_require
@@ -7,4 +8,5 @@ import Tumfl.Props.C04
 #print axioms Tumfl.Props.C04_terminates
 #print axioms Tumfl.Props.C04_outcome_unique
 #print axioms Tumfl.Props.C04_formats_valid
+#print axioms Tumfl.Props.C04_formats_valid_final
 #print axioms Tumfl.Props.C04_expr_cycle_diverges
